@@ -94,7 +94,18 @@ class MetaMC(type):
         else:
             from .dependent import CodeGen
 
-            return CodeGen("isinstance({arg}, {this})", this=cls)
+            # The answer only depends on the class of the argument: ask the
+            # handler once per class for as long as this check is in service.
+            answers = {}
+
+            def check(t):
+                try:
+                    return answers[t]
+                except KeyError:
+                    rval = answers[t] = issubclass(t, cls)
+                    return rval
+
+            return CodeGen("{check}(type({arg}))", check=check)
 
     def __type_order__(cls, other):
         return cls._handler.__type_order__(other)
